@@ -121,8 +121,6 @@ class C02(Prop):
             for m, lvl, nm, asn in R.top_imports(stmt + "\n"):
                 mand_bound.add(asn or nm.split(".")[0])
         for k, v in b["globals"].items():
-            if k == "__doc__" and a["doc"] is None:
-                continue     # "keeps the same module docstring" is claimed for modules that have one
             if k in mand_bound and k not in a["globals"]:
                 continue     # bound by the mandatory import the tool was told to add
             if k not in a["globals"]:
@@ -288,7 +286,62 @@ def fam_future_import_shadowed(case, failure):
     return bool(fut & other)
 
 
+def fam_docstring_promotion(case, failure):
+    """D63: the input has no docstring; removing its leading imports makes a following bare string the docstring."""
+    import ast
+    if failure.get("name") != "__doc__":
+        return False
+    t = case["text"]
+    return ast.get_docstring(ast.parse(t if t.endswith("\n") else t + "\n"), clean=False) is None
+
+
+def fam_private_name_mangling(case, failure):
+    """D64: an import bound to `_Cls__x` and read as `__x` inside `class Cls` (class-private name mangling)."""
+    import re as _re
+    m = _re.search(r"\bas\s+_([A-Za-z][A-Za-z0-9]*?)__([A-Za-z_0-9]+)", case["text"])
+    return bool(m) and ("__" + m.group(2)) in case["text"] and ("class " + m.group(1)) in case["text"]
+
+
+def fam_star_with_explicit(case, failure):
+    """D65: one import block holds a star import and an explicit import (sorting may move one across the other)."""
+    import ast
+    t = case["text"]
+    tree = ast.parse(t if t.endswith("\n") else t + "\n")
+    star = other = False
+    for n in tree.body + [None]:
+        if isinstance(n, ast.ImportFrom) and any(a.name == "*" for a in n.names):
+            star = True
+        elif isinstance(n, (ast.Import, ast.ImportFrom)):
+            other = True
+        else:
+            if star and other:
+                return True
+            star = other = False
+    return False
+
+
+def fam_class_named_like_import(case, failure):
+    """D66: `class X` whose body reads an imported `X` (the class's own name is treated as bound inside its body)."""
+    import ast
+    t = case["text"]
+    tree = ast.parse(t if t.endswith("\n") else t + "\n")
+    imported = set()
+    for n in tree.body:
+        if isinstance(n, ast.Import):
+            imported.update((a.asname or a.name.split(".")[0]) for a in n.names)
+        elif isinstance(n, ast.ImportFrom):
+            imported.update((a.asname or a.name) for a in n.names)
+        elif isinstance(n, ast.ClassDef) and n.name in imported:
+            if any(isinstance(x, ast.Name) and x.id == n.name and isinstance(x.ctx, ast.Load) for b in n.body for x in ast.walk(b)):
+                return True
+    return False
+
+
 C02.families = {"augassign_imported_name": fam_augassign_imported_name,
+                "docstring_promotion": fam_docstring_promotion,
+                "private_name_mangling": fam_private_name_mangling,
+                "star_with_explicit": fam_star_with_explicit,
+                "class_named_like_import": fam_class_named_like_import,
                 "future_import_shadowed": fam_future_import_shadowed,
                 "same_bound_name_in_block": fam_same_bound_name_in_block,
                 "dead_rebinding_import": fam_dead_rebinding_import}
